@@ -50,6 +50,12 @@ RMW_TEMPLATES = [
     (2, [[0, 'enter', 'opt'], [1, 'enter', 'opt'], [0, 'forupd', 3], [1, 'forupd', 3], [0, 'set', 3], [0, 'exit', 0], [1, 'set', 3], [1, 'exit', 0]]),
     # query.for_update() form, non-optimistic second writer
     (2, [[0, 'enter', 'opt'], [1, 'enter', 'nonopt'], [0, 'qforupd', 4], [1, 'load', 4], [0, 'set', 4], [1, 'set', 4], [0, 'exit', 0], [1, 'exit', 0]]),
+    # the locking session has the row already in its cache (ordinary read first), then locks it by pk / unique key / composite key;
+    # B then locks and updates the same row: it must wait for A, and both increments must survive
+    (2, [[0, 'enter', 'opt'], [1, 'enter', 'opt'], [0, 'load', 1], [0, 'forupd', 1], [1, 'forupd', 1], [0, 'set', 1], [0, 'exit', 0], [1, 'set', 1], [1, 'exit', 0]]),
+    (2, [[0, 'enter', 'opt'], [1, 'enter', 'opt'], [0, 'load', 2], [0, 'forupd_u', 2], [1, 'forupd', 2], [0, 'set', 2], [0, 'exit', 0], [1, 'set', 2], [1, 'exit', 0]]),
+    (2, [[0, 'enter', 'opt'], [1, 'enter', 'opt'], [0, 'load', 3], [0, 'forupd_c', 3], [1, 'forupd_u', 3], [0, 'set', 3], [0, 'exit', 0], [1, 'set', 3], [1, 'exit', 0]]),
+    (2, [[0, 'enter', 'opt'], [1, 'enter', 'opt'], [0, 'forupd_u', 4], [1, 'load', 4], [1, 'forupd_c', 4], [0, 'set', 4], [0, 'exit', 0], [1, 'set', 4], [1, 'exit', 0]]),
     (3, [[0, 'enter', 'opt'], [1, 'enter', 'opt'], [2, 'enter', 'ser'], [0, 'forupd', 1], [1, 'load', 1], [2, 'load', 1], [0, 'set', 1], [1, 'set', 1], [2, 'set', 1],
          [0, 'exit', 0], [1, 'exit', 0], [2, 'exit', 0]]),
 ]
@@ -68,7 +74,9 @@ def random_rmw(rng, n):
         if r < 0.2:
             steps.append([t, 'exit', 0]); st[t] = None
         elif row not in st[t]['loaded']:
-            steps.append([t, rng.choice(['load', 'forupd', 'forupd', 'qforupd']), row]); st[t]['loaded'].add(row)
+            steps.append([t, rng.choice(['load', 'load', 'forupd', 'forupd_u', 'forupd_c', 'qforupd']), row]); st[t]['loaded'].add(row); st[t].setdefault('plain', set()).add(row)
+        elif row not in st[t].get('locked', set()) and rng.random() < 0.5:
+            steps.append([t, rng.choice(['forupd', 'forupd_u', 'forupd_c']), row]); st[t].setdefault('locked', set()).add(row)   # lock a row that is already cached
         elif row not in st[t]['set']:
             steps.append([t, 'set', row]); st[t]['set'].add(row)
         else:
@@ -103,6 +111,10 @@ def rmw_anomalies(case, out):
                 for row in cur[t]['sets']: committed_sets[row] = committed_sets.get(row, 0) + 1
             del cur[t]
         elif outcome != 'ok': cur[t]['failed'] = True
+    for t, op, arg, outcome, lk in out['effective']:
+        if op in ('forupd', 'forupd_u', 'forupd_c', 'qforupd') and outcome == 'ok' and not lk:
+            res.append(('locking-read-without-lock:%s' % op, '%s(%s) returned in thread %d while provider.transaction_lock was not held (%s)' % (op, arg, t, name)))
+            break
     rows = out.get('rows_after')
     if isinstance(rows, list):
         for rid, v in rows:
@@ -147,7 +159,9 @@ def runs(ctx, deep=False):
     base = []
     for shape in ('ser', 'imm', 'opt'):
         for name, ops in (('lock-write', [['forupd', False, 1], ['qforupd', False, 2], ['new', False, 5], ['select', False, 0]]),
-                          ('read-commit-read', [['select', False, 0], ['commit', False, 0], ['select', False, 0], ['forupd', True, 3], ['rawwrite', False, 1]])):
+                          ('read-commit-read', [['select', False, 0], ['commit', False, 0], ['select', False, 0], ['forupd', True, 3], ['rawwrite', False, 1]]),
+                          ('routes-cached', [['load', False, 1], ['load', False, 2], ['load', False, 3], ['forupd', False, 1], ['forupd_u', False, 2], ['forupd_c', False, 3],
+                                             ['forupd_u', False, 1], ['forupd_c', False, 4], ['commit', False, 0], ['forupd_u', False, 2]])):
             base.append({'shape': shape, 'start': 'none', 'ops': ops, 'faults': [], 'name': '%s/%s' % (shape, name)})
     o0 = cc.run_driver({'mode': 'sessions', 'cases': base})
     fc = [dict(c, faults=[k]) for c, o in zip(base, o0) if 'harness_error' not in o for k in range(o['sessions'][-1]['calls'])]
@@ -233,6 +247,16 @@ def correspondence(ctx):
                      'thread_case / obs_eqb as in C19')
 
 
+def locking_read_anomalies(c, o):
+    """every successful get_for_update / for_update() of a session leaves the lock held (observed right after the operation)"""
+    res = []
+    for (op, _catch, arg), oc, lk in zip(c['ops'], o['sessions'][0]['outcomes'], o['sessions'][0].get('lock_after_op', [])):
+        if op in ('forupd', 'forupd_u', 'forupd_c', 'qforupd') and oc == 'ok' and not lk:
+            res.append(('locking-read-without-lock:%s:%s' % (op, c['shape']), '%s(%s) returned without the provider lock being held (%s session, ops %s, faults %s)' % (op, arg, c['shape'], c['ops'], c['faults'])))
+            break
+    return res
+
+
 def session_stmt_anomalies(c, o):
     """C35_serializable_begin on the real trace: in an immediate-shape session every select/write runs inside a transaction with the lock held"""
     res = []
@@ -282,7 +306,7 @@ def failures_of(r):
         for key, what in rmw_anomalies(dict(c, name=c.get('name')), dict(o, rows_after=None)): add(key, what, {'kind': 'threads', 'case': c, 'key': key})
     for c, o in zip(r['scases'], r['souts']):
         if 'harness_error' in o or o.get('skipped'): continue
-        for key, what in session_stmt_anomalies(c, o): add(key, what, {'kind': 'session', 'case': c, 'key': key})
+        for key, what in session_stmt_anomalies(c, o) + locking_read_anomalies(c, o): add(key, what, {'kind': 'session', 'case': c, 'key': key})
     return fl
 
 
@@ -317,7 +341,7 @@ def replay(ctx, data):
         return None
     if data.get('kind') == 'session':
         o = cc.run_driver({'mode': 'sessions', 'cases': [c]})[0]
-        an = [] if 'harness_error' in o else session_stmt_anomalies(c, o)
+        an = [] if 'harness_error' in o else session_stmt_anomalies(c, o) + locking_read_anomalies(c, o)
     else:
         o = cc.run_driver({'mode': 'threads', 'cases': [c]})[0]
         if 'harness_error' in o: an = [('rmw-schedule-driver-error', o['harness_error'][-300:])]
